@@ -1,6 +1,6 @@
 (* Dispatch.v — name -> model runner / spec checker, for the extracted driver *)
 From Coq Require Import String List Ascii ZArith Bool.
-From QH Require Import Bytes Value Range Spec_C16 HeaderMap Parser SocketM SockIO Spec_C01 SockSpec.
+From QH Require Import Bytes Value Range Spec_C16 HeaderMap Parser SocketM SockIO Spec_C01 SockSpec Router SrvIO.
 Import ListNotations.
 
 Definition run (fam : bytes) (c : value) : value :=
@@ -11,6 +11,7 @@ Definition run (fam : bytes) (c : value) : value :=
   else if beq fam (B "bytesprim") then run_bytesprim c
   else if beq fam (B "split") then run_split c
   else if beq fam (B "sock") then run_sock c
+  else if beq fam (B "srv") then run_srv c
   else verr.
 
 (* spec checker of property [prop] evaluated on an observation of family [fam] *)
@@ -19,9 +20,9 @@ Definition chk (prop fam : bytes) (c o : value) : bool :=
   else if beq prop (B "C01") then chk_C01 fam c o
   else if beq prop (B "C02") then (if beq fam (B "sock") then chk_C02 c o else true)
   else if beq prop (B "C03") then (if beq fam (B "sock") then chk_C03 c o else true)
-  else if beq prop (B "C04") then (if beq fam (B "sock") then chk_C04 c o else true)
+  else if beq prop (B "C04") then (if beq fam (B "sock") || beq fam (B "srv") then chk_C04 c o else true)
   else if beq prop (B "C18") then (if beq fam (B "sock") then chk_C18 c o else true)
-  else if beq prop (B "C19") then (if beq fam (B "sock") then chk_C19_sock c o else true)
+  else if beq prop (B "C19") then (if beq fam (B "sock") || beq fam (B "srv") then chk_C19_sock c o else true)
   else true.
 
 (* decimal I/O for the driver (arbitrary precision) *)
